@@ -124,6 +124,9 @@ struct Slot {
     /// Which version of the user's auto-correct list (World::ac_epoch) this context loaded last
     /// (at creation, restart or an executed update_engine).
     ac_seen: u64,
+    /// A save of this context has failed and none has succeeded since: the context knows a
+    /// learned choice that the disk does not hold (C06: no reference context can be built).
+    unsaved: bool,
 }
 
 pub struct World<'a> {
@@ -425,6 +428,7 @@ impl<'a> World<'a> {
             lm,
             hist: vec![Obs::idle_empty()],
             ac_seen: self.ac_epoch,
+            unsaved: false,
         };
         self.attach_auto_twin(&mut slot)?;
         self.slots[h as usize] = Some(slot);
@@ -1207,6 +1211,13 @@ impl<'a> World<'a> {
         let (i, shown_sel, len) = match Self::resolve_idx(idx, &last) {
             Some(x) => x,
             None => {
+                if self.scenario == Scenario::KarOrderEquiv {
+                    // a session without anything to choose from (a sign waiting over an empty
+                    // text with the list off): the front-end cannot commit, it ends the word
+                    // with a finish request, so that both sides have ended it
+                    self.stats.bump("probe.commit_with_nothing_shown_becomes_finish");
+                    return self.do_finish(&Op::Finish { h }, h);
+                }
                 self.skip(op, "nothing_shown");
                 return Ok(());
             }
@@ -1274,6 +1285,27 @@ impl<'a> World<'a> {
         }
         if !outcomes.is_empty() {
             self.stats.bump("probe.learning_commit_saved_or_tried");
+        }
+        if self.scenario != Scenario::UserfileFaults {
+            // the fault-injecting configuration of the history scenarios: a save that failed
+            let failed = outcomes.iter().any(|o| !matches!(o, WriteOutcome::Complete));
+            let complete = outcomes.iter().any(|o| matches!(o, WriteOutcome::Complete));
+            if failed {
+                self.stats.bump("fault.save_failed_in_history_scenario");
+            }
+            if let Some(slot) = self.slots[h as usize].as_mut() {
+                if failed {
+                    // the context knows a choice the disk does not hold: a reference context
+                    // over the disk is no longer "the same learned selections" (C06)
+                    slot.unsaved = true;
+                    if matches!(slot.twin, Some((_, TwinKind::Equal))) {
+                        slot.twin = None;
+                    }
+                } else if complete {
+                    // a complete save writes the whole map
+                    slot.unsaved = false;
+                }
+            }
         }
 
         // twin
@@ -1524,6 +1556,22 @@ impl<'a> World<'a> {
             // Nothing but survival (F1) is judged for what follows until the word ends.
             self.stats.bump("probe.update_in_the_middle_of_a_word");
         }
+        if self.scenario == Scenario::KarOrderEquiv {
+            // C14's premise: both contexts have the same settings but the one under test, so
+            // an update is applied to both or to neither
+            let mut all_idle = true;
+            for i in 0..self.slots.len() {
+                if let Some(s) = self.slots[i].as_mut() {
+                    if s.host.alive() && !matches!(s.host.session(), Ok(false)) {
+                        all_idle = false;
+                    }
+                }
+            }
+            if !all_idle {
+                self.skip(op, "pair_not_idle");
+                return Ok(());
+            }
+        }
         let old = self.slots[h as usize].as_ref().unwrap().host.spec;
         if old.data != cfg.data {
             // update_engine's contract (and C11's statement): same data directory
@@ -1610,6 +1658,10 @@ impl<'a> World<'a> {
         };
         if !idle {
             self.skip(op, "not_idle");
+            return Ok(());
+        }
+        if self.slots[h as usize].as_ref().unwrap().unsaved {
+            self.skip(op, "store_not_saved");
             return Ok(());
         }
         let spec = self.slots[h as usize].as_ref().unwrap().host.spec;
@@ -1859,6 +1911,13 @@ impl<'a> World<'a> {
             }
             Op::SetDir { st } => {
                 self.drop_fault_twins();
+                if self.scenario == Scenario::SessionReset {
+                    // a context that is alive may know what the directory no longer holds
+                    for s in self.slots.iter_mut().flatten() {
+                        s.twin = None;
+                        s.unsaved = true;
+                    }
+                }
                 self.disk.set_dir(*st);
                 self.stats.bump(&format!("fault.dir_{:?}", st));
                 if *st == DirState::Missing {
